@@ -19,7 +19,7 @@ import io
 import logging
 import os.path
 
-from cutplace import rowio
+from cutplace import _tools, rowio
 
 # TODO: Move to module ``ranges``.
 MAX_TINYINT = 2**8 - 1  # NOTE: Tinyint really is unsigned.
@@ -762,7 +762,7 @@ class PlSqlDialect(AnsiSqlDialect):
         elif ansi_type == "int":
             length = sql_ansi_type[1]
             if length > MAX_INTEGER:
-                result = ("number", length, 0)
+                result = ("number", _tools.length_of_int(length), 0)
 
         return result
 
@@ -980,7 +980,7 @@ class TransactSqlDialect(AnsiSqlDialect):
             elif limit <= MAX_BIGINT:
                 result = ("bigint", limit)
             else:
-                result = ("decimal", limit, 0)
+                result = ("decimal", _tools.length_of_int(limit), 0)
         else:
             result = sql_ansi_type
 
@@ -1303,7 +1303,7 @@ class Db2SqlDialect(AnsiSqlDialect):
             elif length <= MAX_BIGINT:
                 result = ("bigint", length)
             else:
-                result = ("decimal", length)
+                result = ("decimal", _tools.length_of_int(length))
         return result
 
     def __str__(self):
